@@ -67,7 +67,7 @@ def fam_c11_migrate(rng, i):
     small ACK, arrives from a new address) while the server is sending a large transfer, an off-path attacker re-sends
     genuine small client datagrams from a third address that never answers PATH_CHALLENGE, and in some runs one side
     closes shortly after a rebind. Every such address is unvalidated until a PATH_RESPONSE from it was processed."""
-    d = rng.choice([5, 20, 40])
+    d = rng.choice([5, 20, 40]) if i % 4 != 2 else rng.choice([20, 40])
     n_rebind = rng.choice([1, 2, 3])
     first = rng.choice([80, 150, 300])
     if i % 8 != 7:
@@ -83,12 +83,17 @@ def fam_c11_migrate(rng, i):
         p["spoof_pm"] = rng.choice([30, 100])
         p["spoof_max_len"] = rng.choice([0, 100])
     elif k == 2:
-        # the server application closes while the newest path may still be unvalidated
-        p["sclose_at_ms"] = times[-1] + rng.choice([d + 1, d + 3, 2 * d + 1, 3 * d])
+        # the server application closes while the newest path is still unvalidated and (the client only acknowledges:
+        # small datagrams) at its limit after the padded PATH_CHALLENGE
+        # the client keeps writing too (so its first datagram from the new address leaves right after the rebind and reaches
+        # the server one delay later; the PATH_RESPONSE follows two delays after that), the server has far more to send
+        # than three times what arrives
+        p["bidi"] = 1
+        p["sclose_at_ms"] = times[-1] + d + rng.choice([1, max(2, d // 2), d, d + d // 2])
     elif k == 3:
         p["close_at_ms"] = times[-1] + rng.choice([1, d + 1, 2 * d + 1])
         p["spoof_pm"] = rng.choice([0, 50])
-    if rng.random() < 0.4:
+    if rng.random() < 0.4 and k != 2:
         p["drop_pm"] = rng.choice([30, 100])
         p["faults_until_ms"] = times[-1] + 1000
     return e2e_props._nz(p)
